@@ -51,7 +51,7 @@ def generate(rng, tier):
     out += [("c04-" + n, s) for n, s in C04.generate(rng, "quick")[: (4 if tier == "quick" else 12)]]
     out += [("c12-" + n, s) for n, s in C12.generate(rng, "quick")[: (2 if tier == "quick" else 6)]]
     # histories on shared caches (failing calls followed by succeeding ones at the same address, module changes)
-    out += [("c06-" + n, s) for n, s in C06.generate(rng, "quick")[: (3 if tier == "quick" else 8)]]
+    out += [("c06-" + n, s) for n, s in [x for x in C06.generate(rng, "quick") if x[0].startswith("hist-")][: (3 if tier == "quick" else 8)]]
     out += [("c20-" + n, s) for n, s in C20.generate(rng, "quick")[: (2 if tier == "quick" else 6)]]
     for n, sc in out:
         sc.c19_judge = {"c01": C01.judge, "c04": C04.judge, "c12": C12.judge, "c06": C06.judge, "c20": C20.judge}[n[:3]]
